@@ -21,14 +21,14 @@ Settle(s) ==
   ELSE s
 
 Ops == {<<"send", "L", "">>, <<"send", "R", "">>, <<"setcb", "L", "plain">>, <<"setcb", "L", "end">>, <<"setcb", "R", "plain">>, <<"setcb", "R", "end">>,
-        <<"receive", "L", "">>, <<"receive", "R", "">>, <<"close", "L", "">>, <<"drop", "L", "">>, <<"bodyend", "R", "">>}
+        <<"receive", "L", "">>, <<"receive", "R", "">>, <<"close", "L", "">>, <<"drop", "L", "">>, <<"bodyend", "R", "">>, <<"bodyfail", "R", "">>}
 Can(s, op) ==
   CASE op[1] = "send" -> L!CanSend(s, op[2])
     [] op[1] = "setcb" -> L!CanSetCb(s, op[2])
     [] op[1] = "receive" -> L!CanReceive(s, op[2])
     [] op[1] = "close" -> L!CanClose(s, "L")
     [] op[1] = "drop" -> L!CanDrop(s, "L")
-    [] op[1] = "bodyend" -> L!CanClose(s, "R") /\ ~s.closed["R"]
+    [] op[1] \in {"bodyend", "bodyfail"} -> L!CanClose(s, "R") /\ ~s.closed["R"]
     [] OTHER -> FALSE
 Apply(s, op) ==
   Settle(CASE op[1] = "send" -> L!Send(s, op[2])
@@ -36,7 +36,8 @@ Apply(s, op) ==
            [] op[1] = "receive" -> L!Receive(s, op[2])
            [] op[1] = "close" -> L!Close(s, "L")
            [] op[1] = "drop" -> L!Drop(s, "L")
-           [] op[1] = "bodyend" -> L!Drop(L!Close(s, "R"), "R"))
+           [] op[1] = "bodyend" -> L!Drop(L!Close(s, "R"), "R")
+           [] op[1] = "bodyfail" -> L!Drop(L!CloseWith(s, "R", "error"), "R"))
 
 \* ------------------------------------------------------------ enumeration
 RECURSIVE Words(_, _, _)
@@ -49,10 +50,10 @@ ASSUME PrintT(<<"words", IF IOEnv.WHAT = "enum" THEN Words(L!Init0, <<>>, Depth)
 \* fields of a dead channel object cannot be observed: they are projected away on both sides
 Proj(s, sd) ==
   LET alive == s.obj[sd] = "alive" IN
-  [alive |-> alive, reg |-> s.reg[sd], cb |-> s.cb[sd], ends |-> s.ends[sd], cbgot |-> s.cbgot[sd], rgot |-> s.rgot[sd], eof |-> s.eof[sd],
-   closed |-> alive /\ s.closed[sd], rc |-> alive /\ s.rc[sd], hasq |-> alive /\ s.hasq[sd],
+  [alive |-> alive, reg |-> s.reg[sd], cb |-> s.cb[sd], ends |-> s.ends[sd], cbgot |-> s.cbgot[sd], rgot |-> s.rgot[sd], eof |-> s.eof[sd], rerr |-> s.rerr[sd],
+   closed |-> alive /\ s.closed[sd], rc |-> alive /\ s.rc[sd], hasq |-> alive /\ s.hasq[sd], errs |-> IF alive THEN s.errs[sd] ELSE 0,
    queue |-> IF alive /\ s.hasq[sd] THEN s.queue[sd] ELSE <<>>]
-Fields == <<"alive", "reg", "cb", "ends", "cbgot", "rgot", "eof", "closed", "rc", "hasq", "queue">>
+Fields == <<"alive", "reg", "cb", "ends", "cbgot", "rgot", "eof", "closed", "rc", "hasq", "queue", "errs", "rerr">>
 Clause(f) ==
   CASE f = "reg" -> "C18.chanlife.channel-table-entry-differs-from-model"
     [] f = "cb" -> "C18.chanlife.callback-table-entry-differs-from-model"
@@ -63,6 +64,8 @@ Clause(f) ==
     [] f = "closed" -> "C03.chanlife.closed-flag-differs-from-model"
     [] f = "rc" -> "C03.chanlife.receiveclosed-flag-differs-from-model"
     [] f = "queue" -> "C03.chanlife.queue-differs-from-model"
+    [] f = "rerr" -> "C07.chanlife.remote-errors-raised-by-receive-differ-from-model"
+    [] f = "errs" -> "C07.chanlife.pending-remote-errors-differ-from-model"
     [] OTHER -> "C18.chanlife.state-differs-from-model"
 Differs(want, got) == {i \in 1..Len(Fields) : want[Fields[i]] # got[Fields[i]]}
 RECURSIVE Judge(_, _, _, _)
